@@ -50,6 +50,24 @@ func encode(tag byte, sizes []int) []byte {
 	return out
 }
 
+// sclock is the scripted clock of a UDP behaviour: the conns' "now" is real time + skew. Deadlines the
+// relay computes from the real time.Now() are converted when they are set ("d from now" stays so).
+type sclock struct{ skew atomic.Int64 }
+
+func (k *sclock) onClock(t time.Time) time.Time {
+	if t.IsZero() || k == nil {
+		return t
+	}
+	return t.Add(time.Duration(k.skew.Load()))
+}
+
+func (k *sclock) past(dl time.Time) bool {
+	if dl.IsZero() || k == nil {
+		return false
+	}
+	return !time.Now().Add(time.Duration(k.skew.Load())).Before(dl)
+}
+
 // ftun is the scripted tunnel stream: Read serves the encoded stream chunk by chunk up to the
 // cut, then EOF or an error, for ever after. Writes are captured.
 type ftun struct {
@@ -62,6 +80,10 @@ type ftun struct {
 	bounds []int
 	pos    int
 	held   bool
+	limit  int // flow phase: only stream[:limit] can be read yet (limit >= cut: no restriction)
+	clk    *sclock
+	rdl    time.Time // deadlines set by the relay (via "direct": the relay holds this object itself)
+	wdl    time.Time
 	ended  bool
 	after  int // Reads after the end was reported
 	drain  []byte
@@ -78,11 +100,15 @@ type ftun struct {
 func (t *ftun) Read(p []byte) (int, error) {
 	t.mu.Lock()
 	defer t.mu.Unlock()
-	for t.held && !t.closed {
+	for (t.held || (t.pos >= t.limit && t.limit < t.cut)) && !t.closed && !t.drainM && !t.clk.past(t.rdl) {
 		t.cond.Wait()
 	}
 	if t.closed {
 		return 0, errClosed
+	}
+	if !t.drainM && t.clk.past(t.rdl) {
+		t.rec.add(fw.Event{"ev": "UTimeout", "side": "tunnel", "op": "read"})
+		return 0, timeoutErr{}
 	}
 	if t.drainM { // clean-up after a hang: complete the stream, then an illegal length ends the de-framer
 		if len(t.drain) > 0 {
@@ -99,6 +125,9 @@ func (t *ftun) Read(p []byte) (int, error) {
 				end = b
 				break
 			}
+		}
+		if t.limit < end && t.limit > t.pos {
+			end = t.limit
 		}
 		n := copy(p, t.stream[t.pos:end])
 		t.pos += n
@@ -131,6 +160,11 @@ func (t *ftun) Write(p []byte) (int, error) {
 		t.mu.Unlock()
 		return 0, errTunnel
 	}
+	if t.clk.past(t.wdl) {
+		t.rec.add(fw.Event{"ev": "UTimeout", "side": "tunnel", "op": "write"})
+		t.mu.Unlock()
+		return 0, timeoutErr{}
+	}
 	hold := t.holdNext
 	if hold {
 		t.holdNext = false
@@ -160,6 +194,22 @@ func (t *ftun) set(f func()) {
 
 func (t *ftun) CloseWrite() error { return nil }
 
+func (t *ftun) SetReadDeadline(d time.Time) error {
+	t.set(func() { t.rdl = t.clk.onClock(d); t.cond.Broadcast() })
+	return nil
+}
+func (t *ftun) SetWriteDeadline(d time.Time) error {
+	t.set(func() { t.wdl = t.clk.onClock(d) })
+	return nil
+}
+func (t *ftun) SetDeadline(d time.Time) error {
+	t.SetReadDeadline(d)
+	return t.SetWriteDeadline(d)
+}
+
+// setLimit lets the stream flow up to byte offset n.
+func (t *ftun) setLimit(n int) { t.set(func() { t.limit = n; t.cond.Broadcast() }) }
+
 func (t *ftun) Close() error {
 	t.mu.Lock()
 	t.closed = true
@@ -171,6 +221,7 @@ func (t *ftun) Close() error {
 func (t *ftun) release() {
 	t.mu.Lock()
 	t.held = false
+	t.limit = t.cut
 	t.cond.Broadcast()
 	t.mu.Unlock()
 }
@@ -217,6 +268,27 @@ type fsock struct {
 	parked bool
 	count  int
 	slow   time.Duration // the first Write is slow: it takes its bytes this much later
+	clk    *sclock
+	rdl    time.Time // deadlines set by the relay (scripted clock)
+	wdl    time.Time
+}
+
+func (s *fsock) SetReadDeadline(d time.Time) error {
+	s.mu.Lock()
+	s.rdl = s.clk.onClock(d)
+	s.cond.Broadcast()
+	s.mu.Unlock()
+	return nil
+}
+func (s *fsock) SetWriteDeadline(d time.Time) error {
+	s.mu.Lock()
+	s.wdl = s.clk.onClock(d)
+	s.mu.Unlock()
+	return nil
+}
+func (s *fsock) SetDeadline(d time.Time) error {
+	s.SetReadDeadline(d)
+	return s.SetWriteDeadline(d)
 }
 
 func newFsock(rec *recorder) *fsock {
@@ -228,13 +300,17 @@ func (s *fsock) conn() io.ReadWriteCloser { return s }
 func (s *fsock) Read(p []byte) (int, error) {
 	s.mu.Lock()
 	defer s.mu.Unlock()
-	for len(s.in) == 0 && !s.closed {
+	for len(s.in) == 0 && !s.closed && !s.clk.past(s.rdl) {
 		s.parked = true
 		s.cond.Wait()
 	}
 	s.parked = false
 	if s.closed {
 		return 0, io.EOF
+	}
+	if len(s.in) == 0 {
+		s.rec.add(fw.Event{"ev": "UTimeout", "side": "sock", "op": "read"})
+		return 0, timeoutErr{}
 	}
 	n := copy(p, s.in[0])
 	s.in = s.in[1:]
@@ -251,6 +327,10 @@ func (s *fsock) Write(p []byte) (int, error) {
 	defer s.mu.Unlock()
 	if s.closed {
 		return 0, io.ErrClosedPipe
+	}
+	if s.clk.past(s.wdl) {
+		s.rec.add(fw.Event{"ev": "UTimeout", "side": "sock", "op": "write"})
+		return 0, timeoutErr{}
 	}
 	idx, ok := checkDatagram(p, tagT)
 	s.rec.add(fw.Event{"ev": "UDeliver", "idx": idx, "len": len(p), "ok": ok})
@@ -433,6 +513,16 @@ type udpSpec struct {
 	Slow  string `json:"slow,omitempty"`
 	Fail  int    `json:"fail,omitempty"`
 	Model any    `json:"model,omitempty"`
+	// flow phase (after the first len(U)-FlowU datagrams of the peer, before the rest of the stream is
+	// released): Flow steps of { one second passes on the scripted clock (and GapMs of real time); the
+	// peer sends its next datagram; the next datagram of the tunnel stream becomes readable; wait until
+	// both have arrived }.  IdleMs = idle timeout given to tunnel.Tunnel (via "tunnel"), Sc = scenario tag.
+	Flow   int    `json:"flow,omitempty"`
+	StepS  int    `json:"stepS,omitempty"` // scripted seconds per flow step (default 1)
+	FlowU  int    `json:"flowU,omitempty"`
+	GapMs  int    `json:"gapMs,omitempty"`
+	IdleMs int    `json:"idleMs,omitempty"`
+	Sc     string `json:"sc,omitempty"`
 }
 
 func wholeBefore(sizes []int, cut int) int {
@@ -455,7 +545,11 @@ func driveUDP(env *fw.Env, sp udpSpec) *fw.Trace {
 	if sp.Cut > len(stream) {
 		return &fw.Trace{Status: fw.DriverError, Note: "cut beyond stream"}
 	}
-	tun := &ftun{rec: rec, stream: stream, cut: sp.Cut, how: sp.How, bounds: sp.Bounds, held: true,
+	if len(sp.T) > 255 || len(sp.U) > 255 {
+		return &fw.Trace{Status: fw.DriverError, Note: "datagram index does not fit the payload's index byte"}
+	}
+	clk := &sclock{}
+	tun := &ftun{rec: rec, stream: stream, cut: sp.Cut, how: sp.How, bounds: sp.Bounds, held: true, clk: clk,
 		entered: make(chan struct{}), relCh: make(chan struct{})}
 	tun.cond = sync.NewCond(&tun.mu)
 	lossy := sp.Slow == "tunnelWriteAfterFailures"
@@ -484,6 +578,7 @@ func driveUDP(env *fw.Env, sp udpSpec) *fw.Trace {
 		side = rs
 	} else {
 		fs := newFsock(rec)
+		fs.clk = clk
 		if sp.Slow == "sockWrite" {
 			fs.slow = 40 * time.Millisecond
 		}
@@ -491,8 +586,16 @@ func driveUDP(env *fw.Env, sp udpSpec) *fw.Trace {
 	}
 	t := orEmpty(sp.T)
 	u := orEmpty(sp.U)
-	rec.add(fw.Event{"ev": "UStart", "sock": sp.Sock, "via": sp.Via, "t": t, "u": u, "cut": sp.Cut, "how": sp.How, "sc": sp.Slow, "lossy": lossy})
-	done, cleanup := startRelay(sp.Via, "udp", side.conn(), tun)
+	sc := sp.Slow
+	if sp.Sc != "" {
+		sc = sp.Sc
+	}
+	rec.add(fw.Event{"ev": "UStart", "sock": sp.Sock, "via": sp.Via, "t": t, "u": u, "cut": sp.Cut, "how": sp.How, "sc": sc, "lossy": lossy})
+	done, cleanup := startRelayIdle(sp.Via, "udp", side.conn(), tun, time.Duration(sp.IdleMs)*time.Millisecond)
+	nInit := len(sp.U) - sp.FlowU // datagrams of the peer sent before the flow phase
+	if nInit < 0 {
+		nInit = 0
+	}
 
 	// UDP peer -> tunnel
 	// waitTaken: the relay has read everything the peer sent so far (+ a grace period in which a
@@ -504,7 +607,7 @@ func driveUDP(env *fw.Env, sp udpSpec) *fw.Trace {
 		time.Sleep(30 * time.Millisecond)
 	}
 	released := false
-	for i, s := range sp.U {
+	for i, s := range sp.U[:nInit] {
 		rec.add(fw.Event{"ev": "USent", "idx": i + 1})
 		if i == 0 && firstSent {
 			continue // it created the session
@@ -542,11 +645,11 @@ func driveUDP(env *fw.Env, sp udpSpec) *fw.Trace {
 		released = true
 	}
 	_ = released
-	if len(sp.U) > 0 {
+	if nInit > 0 {
 		deadline := time.Now().Add(flushWait)
 		for {
 			_, have := tun.records()
-			if have >= len(sp.U) {
+			if have >= nInit {
 				break
 			}
 			if time.Now().After(deadline) {
@@ -556,6 +659,68 @@ func driveUDP(env *fw.Env, sp udpSpec) *fw.Trace {
 				break
 			}
 			time.Sleep(2 * time.Millisecond)
+		}
+	}
+	// flow phase: time passes while both directions keep exchanging one datagram per step
+	if sp.Flow > 0 {
+		gap := time.Duration(sp.GapMs) * time.Millisecond
+		maxGap := time.Duration(sp.IdleMs) * time.Millisecond / 2
+		if sp.IdleMs == 0 {
+			maxGap = 150 * time.Second // the code's own idle timeout: 5 minutes
+		}
+		whole, ends, off := wholeBefore(sp.T, sp.Cut), []int{}, 0
+		for _, s := range sp.T {
+			off += 2 + s
+			ends = append(ends, off)
+		}
+		tun.set(func() { tun.held = false; tun.cond.Broadcast() })
+		last := time.Now()
+	flow:
+		for i := 0; i < sp.Flow; i++ {
+			clk.skew.Add(int64(time.Second) * int64(max(sp.StepS, 1)))
+			tun.set(func() { tun.cond.Broadcast() })
+			if fs, ok := side.(*fsock); ok {
+				fs.mu.Lock()
+				fs.cond.Broadcast()
+				fs.mu.Unlock()
+			}
+			time.Sleep(gap)
+			if gap > 0 && time.Since(last) > maxGap {
+				side.shutdown()
+				tun.Close()
+				cleanup()
+				rec.seal()
+				return &fw.Trace{Status: fw.Inconclusive, Note: "real-time flow: this machine was too slow to keep the traffic going"}
+			}
+			if k := nInit + i; k < len(sp.U) {
+				rec.add(fw.Event{"ev": "USent", "idx": k + 1})
+				if !(k == 0 && firstSent) {
+					if err := side.peerSend(mkDatagram(tagU, k+1, sp.U[k])); err != nil {
+						break flow // the relay has closed the socket: the judge sees what is missing
+					}
+				}
+				for dl := time.Now().Add(flushWait); ; {
+					if _, have := tun.records(); have >= k+1 {
+						break
+					}
+					if time.Now().After(dl) {
+						_, have := tun.records()
+						rec.add(fw.Event{"ev": "UFlushTimeout", "have": have})
+						break flow
+					}
+					time.Sleep(time.Millisecond)
+				}
+			}
+			if i < whole {
+				tun.setLimit(ends[i])
+				for dl := time.Now().Add(flushWait); side.delivered() < i+1; {
+					if time.Now().After(dl) {
+						break flow // not arriving any more: Complete decides at the end
+					}
+					time.Sleep(time.Millisecond)
+				}
+			}
+			last = time.Now()
 		}
 	}
 	// tunnel -> UDP: let the stream flow up to its cut
